@@ -211,7 +211,8 @@ impl Property for C09 {
     }
     fn decode(&self, t: &mut Tape) -> Case {
         let n = 1 + t.weighted(&[75, 25]);
-        let exprs: Vec<Expr> = (0..n).map(|_| gen_tail_expr(t)).collect();
+        let mut exprs: Vec<Expr> = (0..n).map(|_| gen_tail_expr(t)).collect();
+        add_empty_member(t, &mut exprs);
         let mut paths = pat_pool(t, &exprs, 1);
         paths = paths.into_iter().map(|p| canonicalize(&p)).collect();
         let mut names = Vec::new();
